@@ -660,7 +660,10 @@ class KlongInterpreter():
 
         ctx = {} if f_args is None else {reserved_fn_symbol_map[p]: self.call(q) for p,q in zip(reserved_fn_args,f_args)}
 
-        if is_list(f) and len(f) > 1 and is_list(f[0]) and len(f[0]) > 0:
+        # A local declaration is an array literal in first position of a program
+        # (a plain list of expressions). A conditional (KGCond) or an evaluated
+        # array constructor is a single expression, never a declaration.
+        if type(f) is list and len(f) > 1 and is_list(f[0]) and not isinstance(f[0], list) and len(f[0]) > 0:
             # Filter out semicolons and check if ALL remaining elements are symbols.
             # A mixed list like [a 1] is a normal array literal, not a local declaration.
             non_sep = [q for q in f[0] if q != ';']
